@@ -95,18 +95,41 @@ def check_pitch(inp):
             # replay in a fresh process then shows the same thing
             c.to_pitch(Note(k, v, o, 1))
         got = c.to_pitch(n)
+    except ZeroDivisionError as e:
+        # a figure whose omissions remove every chord tone ('5{-1}{-3}{-5}') has no arpeggio to count along: the
+        # library's stated error branch for chord- and bass-tone notes (the model returns the same error); any other
+        # note kind, or a chord that has tones, must not raise
+        arp_empty = k in ('c', 'b') and len(c.chord_pitches if k == 'c' else c.chord_extension_pitches) == 0
+        if arp_empty:
+            return None
+        return {'observed': f'{type(e).__name__}: {e}', 'expected': 'a pitch'}
     except Exception as e:
         return {'observed': f'{type(e).__name__}: {e}', 'expected': 'a pitch'}
     exp = expected_pitch(c, n)
     if exp is None:
         return None
-    if isinstance(exp, tuple):
-        ok = got is not None and exp[0] <= got <= exp[1]
-    else:
-        ok = got == exp
-    if ok:
-        return None
-    return {'observed': None if got is None else int(got), 'expected': exp}
+
+    def ok(g):
+        if isinstance(exp, tuple):
+            return g is not None and exp[0] <= g <= exp[1]
+        return g == exp
+    if not ok(got):
+        return {'observed': None if got is None else int(got), 'expected': exp}
+    # the same pitch through the other public routes: the function the exporters call directly, and the note
+    # matrix of a one-note score (seed C01-6 moved the per-note mode resolution into Chord.to_pitch only)
+    try:
+        from musiclang.write.pitches.pitches_utils import note_to_pitch_result
+        from musiclang.write.out.to_midi import get_notes
+        from musiclang import Score
+        g2 = note_to_pitch_result(n, c)
+        rows = get_notes(Score([c(piano__0=n)]))
+        g3 = int(rows[0][0]) if rows else None
+    except Exception as e:
+        return {'observed': f'other route: {type(e).__name__}: {e}', 'expected': exp}
+    for route, g in (('note_to_pitch_result', g2), ('get_notes', g3)):
+        if g is None or int(g) != int(got):
+            return {'observed': {route: None if g is None else int(g)}, 'expected': {'Chord.to_pitch': int(got), 'documented': exp}}
+    return None
 
 
 def check_arpeggio(inp):
